@@ -233,6 +233,22 @@ func init() {
 		"github.com/google/uuid.NewString": constFn("3f2c1a9e-7b4d-4c6a-9e1f-0a1b2c3d4e5f"),
 		"github.com/google/uuid.NewRandom": func(fr *frame, args []value) value { return tuple{uuidNew(fr, nil), iface{}} },
 
+		"crypto/subtle.ConstantTimeCompare": func(fr *frame, a []value) value {
+			in := fr.i
+			x, y := a[0].([]value), a[1].([]value)
+			if len(x) != len(y) {
+				return 0
+			}
+			eq := in.strEq(mkString(x), mkString(y))
+			if b, ok := eq.(bool); ok {
+				if b {
+					return 1
+				}
+				return 0
+			}
+			return in.fromTerm(in.ts.Ite(eq.(*Sym).T, in.ts.Const(64, 1), in.ts.Const(64, 0)), types.Int)
+		},
+
 		// ---- default prelude: logging is never part of a property
 		"github.com/tucats/ego/internal/cli/ui.Log":      noop,
 		"github.com/tucats/ego/internal/cli/ui.WriteLog": noop,
